@@ -93,7 +93,11 @@ def mutate_fields(rng, b, segs):
         v = rng.choice([0, 1, 2, 3, cur - 1, cur + 1, cur - 2, cur + 2, cur + 16, cur + 17, cur + 64, cur + 65, 0xFFFF, 0x8000, rng.below(65536)]) & 0xFFFF
         setb(off + 2, v >> 8)
         setb(off + 3, v)
-        return bytes(b), "len-%02x" % m
+        return bytes(b), "len"
+    if m in SOFS and r == 2:
+        # process confusion: same segment under another SOFn code
+        setb(off + 1, rng.choice([0xC0, 0xC1, 0xC2, 0xC3, 0xC9, 0xCA, 0xCB, 0xCB, 0xC5, 0xC7, 0xCD, 0xCF, 0xC8]))
+        return bytes(b), "sofn"
     if m in SOFS:
         k = rng.below(6)
         if k == 0:
@@ -163,7 +167,7 @@ def mutate_fields(rng, b, segs):
     else:
         setb(p + rng.below(max(min(ln - 4, 16), 1)), rng.choice(INTERESTING))
         what = "app"
-    return bytes(b), "%s-%02x" % (what, m)
+    return bytes(b), what
 
 
 def mutate_struct(rng, b, segs):
@@ -178,14 +182,14 @@ def mutate_struct(rng, b, segs):
     if r == 0:
         i = rng.choice(idx)
         pieces.insert(i, pieces[i])
-        what = "dup-%02x" % segs[i][1]
+        what = "dup"
     elif r == 1 and len(idx) >= 2:
         i, j = rng.choice(idx), rng.choice(idx)
         pieces[i], pieces[j] = pieces[j], pieces[i]
-        what = "swap-%02x-%02x" % (segs[i][1], segs[j][1])
+        what = "swap"
     elif r == 2:
         i = rng.choice(idx)
-        what = "del-%02x" % segs[i][1]
+        what = "del"
         del pieces[i]
     elif r == 3:
         i = rng.choice(idx)
@@ -204,7 +208,7 @@ def mutate_struct(rng, b, segs):
                             seg(0xEE, b"Adobe\0\x64\0\0\0\0" + bytes([rng.choice([0, 1, 2, 3, 255])])), seg(0xEE, b"Adobe"), seg(0xE0, b"JFXX\0\x10"),
                             bytes([0xFF, 0xE5, 0xFF, 0xFF]), bytes([0xFF, 0xFE, 0x00, 0x00]), bytes([0xFF, 0xE1, 0x00, 0x01])])
         pieces.insert(i, extra)
-        what = "ins-%02x" % extra[1]
+        what = "insert"
     elif r == 6:
         # move a table segment behind the first SOS
         sos = [i for i in idx if segs[i][1] == 0xDA]
@@ -214,14 +218,14 @@ def mutate_struct(rng, b, segs):
             p = pieces[i]
             pieces.insert(sos[0] + 1, p)
             del pieces[i]
-            what = "late-%02x" % segs[i][1]
+            what = "table-after-sos"
         else:
             what = "none"
     else:
         i = rng.choice(idx)
         j = rng.choice(idx)
         pieces.insert(j, pieces[i])
-        what = "copy-%02x" % segs[i][1]
+        what = "copy"
     return b"".join(pieces) + tail, what
 
 
@@ -497,8 +501,13 @@ def judge_dec(ctx, line, res, nbytes):
     if k in ("0", "1", "2") and kv.get("hdr") == "0" and kv.get("sane") == "0" and not tables_only:
         ctx.violation("tj3DecompressHeader reported success with insane parameters: " + res, rep, signature="insane-header")
     if "same" in kv and kv["same"] != "1" and kv.get("untouched") == "1" and kv.get("rc", "").startswith("-1"):
-        ctx.violation("a fatal error was reported as TJERR_WARNING (tj3GetErrorCode) although nothing was written to the output: " + res,
-                      rep, signature="fatal-as-warning")
+        if kv.get("thr") == "1":
+            ctx.violation("a TurboJPEG-level error (THROW) after a libjpeg warning in the same call was reported as TJERR_WARNING "
+                          "(tj3GetErrorCode) although nothing was written to the output: " + res,
+                          rep, signature="throw-after-warning-as-warning")
+        else:
+            ctx.violation("a fatal libjpeg error was reported as TJERR_WARNING (tj3GetErrorCode) although nothing was written to the output: " + res,
+                          rep, signature="fatal-as-warning")
     elif "same" in kv and kv["same"] != "1":
         ctx.violation("two decodes of the same stream into differently pre-filled buffers disagree (uninitialised or non-deterministic output): " + res,
                       rep, signature="uninit:k%s" % k)
@@ -563,6 +572,14 @@ def dec_line(rng, i, data):
 def run(ctx):
     rng = ctx.rng
     ctx.regen(["Limits"])
+    try:
+        gl = open(os.path.join(core.COQ, "gen", "GenLimits.v")).read()
+        gone = re.findall(r'\("([^"]+)", "([^"]+)", false\)', gl)
+        for fn, what in gone:
+            ctx.log("guard mirrored by the model is no longer in the source: %s (%s)" % (what, fn))
+            ctx.broken_tie("guard:" + what, "%s: the check '%s' that the model mirrors is gone or changed" % (fn, what))
+    except OSError:
+        pass
     ctx.prove()
     drv = ctx.model_driver()
     exe = ctx.cc("c01", ["c01.c"], "asan", libs=("turbojpeg",))
@@ -588,7 +605,7 @@ def run(ctx):
                 if l and not l.startswith("#"):
                     cases.append((l, "corpus"))
 
-    total = ctx.n(4000, 200000)
+    total = ctx.n(10000, 200000)
     seeds = make_seeds(ctx, rng, exe, ctx.n(44, 160))
     streams = []     # (bytes, kind)
     for s, tag in seeds:
@@ -648,7 +665,7 @@ def run(ctx):
             streams.append((bytes(b), "random-overwrite"))
     for (s, kind) in streams:
         cases.append(("hdr " + s.hex(), kind))
-    nblk = ctx.n(300, 8000)
+    nblk = ctx.n(1000, 20000)
     for i in range(nblk):
         cases.append((gen_blk_case(rng), "blk"))
     return run_cases(ctx, drv, exe, blk, cases, oracle_every=1 if not ctx.thorough() else 3)
@@ -673,12 +690,19 @@ def run_cases(ctx, drv, exe, blk, cases, oracle_every=1):
     # ---- implementation: header correspondence lines
     impl = run_lines(ctx, exe, [l for l, _ in hdr_cases], "jpeg_read_header/jpeg_start_decompress")
     disagree = unmodelled = accepted = 0
+    verdicts = {}
     for i, ((line, kind), res) in enumerate(zip(hdr_cases, impl)):
         if res is None:
             ctx.count(kind, 1, None)
             continue
         if res.startswith("OK ") and " ## ok" in res:
             accepted += 1
+        v = "header:" + (res.split()[1] if res.startswith("E ") else res.split()[0])
+        verdicts[v] = verdicts.get(v, 0) + 1
+        if " ## " in res:
+            sp = res.split(" ## ", 1)[1].split()
+            v = "start:" + (sp[1] if sp[0] == "E" else sp[0])
+            verdicts[v] = verdicts.get(v, 0) + 1
         if mlines is not None:
             m = mlines[i]
             if "TRACE-OUT-OF-RANGE" in m or "MODEL_OUT_OF_FUEL" in m:
@@ -738,6 +762,7 @@ def run_cases(ctx, drv, exe, blk, cases, oracle_every=1):
     ctx.cov["model_impl_disagreements"] = disagree + bdis
     ctx.cov["start_decompress_errors_outside_model"] = unmodelled
     ctx.cov["streams_accepted_by_impl"] = accepted
+    ctx.cov["implementation_verdicts"] = verdicts
     ctx.cov["oracle_runs"] = len(dec_lines)
     ctx.cov["oracle_runs_with_output_produced"] = produced
     ctx.cov["block_cases_with_k_beyond_63"] = over
